@@ -730,7 +730,12 @@ func runProperty(c *Ctx, pd *propDef, known knownFile, reviewed map[string]revie
 		evdir = filepath.Join(vd, "evidence")
 	}
 	controlsBroken := false
-	if tier == "thorough" && !listRules {
+	if tier == "thorough" && !listRules && nViol > 0 {
+		// the controls are variants *of a tree on which the property holds*: on a tree that
+		// already violates it they say nothing (every silent control would "alarm")
+		r.Controls = map[string]any{"total": 0, "note": "controls not evaluated: the analysed tree itself violates the property; they are variants of a tree on which it holds"}
+		fmt.Printf("controls: not evaluated (the analysed tree violates the property)\n")
+	} else if tier == "thorough" && !listRules {
 		rs, ok := runControls(c, pd.ID)
 		r.Controls = summariseControls(rs)
 		for _, cr := range rs {
